@@ -105,3 +105,90 @@ fn any_text_case(max: usize) {
 }
 pub fn h_c34_any_text() { any_text_case(4); reach("C34.any_text"); }
 pub fn ht_c34_any_text6() { any_text_case(6); reach("C34.any_text6"); }
+
+// ---------------------------------------------------------------------------------------------
+// the whole `cycle_reference` with the real tokenizer: "=<ref1>+<ref2>", any cursor / selection
+
+use super::cycle_reference;
+use crate::verif::st::{language_en, locale_with};
+
+fn light_prefix() -> Vec<char> {
+    let k = any_u8();
+    assume(k < 3);
+    let p: &str = if k == 0 { "" } else if k == 1 { "Sh!" } else { "'a $b'!" };
+    p.chars().collect()
+}
+fn push_all(dst: &mut Vec<char>, src: &[char]) { let mut i = 0; while i < src.len() { dst.push(src[i]); i += 1; } }
+
+/// exactly the references the cursor touches are cycled (a cursor grazing an edge counts), nothing else changes,
+/// and the returned cursor follows the documented rule
+/// endpoint with symbolic `$` markers only (fixed mixed-case letters and digits): (typed, after one F4)
+fn light_endpoint(kind: u8, col: &str, row: &str) -> (Vec<char>, Vec<char>, Vec<char>) {
+    let (ac, ar) = (any_bool(), any_bool());
+    let (c1, r1) = if kind == 0 {
+        if !ac && !ar { (true, true) } else if ac && ar { (false, true) } else if !ac && ar { (true, false) } else { (false, false) }
+    } else { (!ac, !ar) };
+    let mut t: Vec<char> = Vec::new();
+    let mut w: Vec<char> = Vec::new();
+    if kind != 2 {
+        if ac { t.push('$'); } if c1 { w.push('$'); }
+        for ch in col.chars() { t.push(ch); w.push(ch.to_ascii_uppercase()); }
+    }
+    if kind != 1 {
+        if ar { t.push('$'); } if r1 { w.push('$'); }
+        for ch in row.chars() { t.push(ch); w.push(ch); }
+    }
+    (t, w, Vec::new())
+}
+
+pub fn h_c34_cycle_reference() {
+    let k1 = any_u8();
+    assume(k1 < 3);
+    let (a, a1, _) = light_endpoint(k1, "b", "7");
+    // a range needs two endpoints of the same kind; a lone row/column endpoint is not a reference
+    let (mut t1, mut w1) = (a.clone(), a1.clone());
+    if k1 != 0 || any_bool() {
+        let (b, b1, _) = light_endpoint(k1, "Cd", "12");
+        t1.push(':'); w1.push(':');
+        push_all(&mut t1, &b); push_all(&mut w1, &b1);
+    }
+    let pre = light_prefix();
+    let mut tok1: Vec<char> = pre.clone(); push_all(&mut tok1, &t1);
+    let mut want1: Vec<char> = pre.clone(); push_all(&mut want1, &w1);
+    let (t2, w2, _) = light_endpoint(0, "x", "9");
+    let mut text: Vec<char> = vec!['='];
+    push_all(&mut text, &tok1); text.push('+'); push_all(&mut text, &t2);
+    let (s1, e1) = (1usize, 1 + tok1.len());
+    let (s2, e2) = (e1 + 1, e1 + 1 + t2.len());
+    let (start, end) = (any_usize_to(text.len()), any_usize_to(text.len()));
+    let (lo, hi) = if start <= end { (start, end) } else { (end, start) };
+    let touch1 = !(s1 > hi || lo > e1);
+    let touch2 = !(s2 > hi || lo > e2);
+    let mut want: Vec<char> = vec!['='];
+    push_all(&mut want, if touch1 { &want1 } else { &tok1 });
+    let end1_new = want.len();
+    want.push('+');
+    let start2_new = want.len();
+    push_all(&mut want, if touch2 { &w2 } else { &t2 });
+    let end2_new = want.len();
+    let value: String = text.iter().collect();
+    let want_text: String = want.iter().collect();
+    let locale = locale_with(".", ",");
+    let result = cycle_reference(&value, start, end, &locale, language_en());
+    check("C34.cycle_reference.ok", result.is_ok());
+    match result {
+        Ok((got, gs, ge)) => {
+            check("C34.cycle_reference.text", got == want_text);
+            if !touch1 && !touch2 {
+                check("C34.cycle_reference.cursor_unchanged", (gs, ge) == (start as i32, end as i32));
+            } else {
+                let last = if touch2 { end2_new } else { end1_new };
+                let first = if touch1 { 1 } else { start2_new };
+                let want_cursor = if start == end { (last as i32, last as i32) } else { (first as i32, last as i32) };
+                check("C34.cycle_reference.cursor", (gs, ge) == want_cursor);
+            }
+        }
+        Err(_) => {}
+    }
+    reach("C34.cycle_reference");
+}
